@@ -73,6 +73,16 @@ def check_sides(idx: ProgramIndex, rep: Report, prop: str, rule: str) -> int:
                     if name not in carries and rd and rd <= (selfonly | {sn, "torch"}):
                         selfonly.add(name)
 
+            # locals that hold (something built from) a transpose: self_t = self.mT
+            transposed: Set[str] = set()
+            for _ in range(4):
+                for name, v in assigns:
+                    if name not in transposed and (_has_transpose(v) or any(isinstance(x, ast.Name) and x.id in transposed for x in ast.walk(v))):
+                        transposed.add(name)
+
+            def has_transpose(e: ast.AST) -> bool:
+                return _has_transpose(e) or any(isinstance(x, ast.Name) and x.id in transposed for x in ast.walk(e))
+
             def kind(e: ast.AST) -> str:
                 rd = {r.split(".")[0] for r in value_reads(e)}
                 if rd & carries:
@@ -90,7 +100,7 @@ def check_sides(idx: ProgramIndex, rep: Report, prop: str, rule: str) -> int:
                 kl, kr = kind(l), kind(r)
                 if {kl, kr} != {"self", "operand"}:
                     continue
-                if _has_transpose(l) or _has_transpose(r):
+                if has_transpose(l) or has_transpose(r):
                     continue
                 # a product nested under a transpose of its result is not followed either
                 n_sites += 1
